@@ -394,3 +394,74 @@ if __name__ == "__main__":
             print(n, ALL[n]())
         except Exception as e:  # noqa: BLE001
             print(n, "WITNESS-ERROR", type(e).__name__, e)
+
+
+def F22():
+    """C10 / C16: explicit FuzzyEquality on an integer array with two dimensions compared with itself, and Mesh.equals on
+    a mesh with integer-typed coordinates, raised (in-place product of an integer array and a float tolerance)"""
+    from fieldcompare.predicates import FuzzyEquality
+    from fieldcompare.mesh import Mesh, CellTypes
+    a = np.array([[1, 2, 3], [4, 5, 6]], dtype=np.int64)
+    out = []
+    for p in (FuzzyEquality(), FuzzyEquality(rel_tol=1e-3), FuzzyEquality(rel_tol=0.0, abs_tol=1.0)):
+        try:
+            out.append(bool(p(a, a)))
+        except Exception as e:  # noqa: BLE001
+            out.append(type(e).__name__)
+    try:
+        m = Mesh(np.array([[0, 0], [1, 0], [0, 1]]), [(CellTypes.triangle, [[0, 1, 2]])])
+        out.append(bool(m.equals(m)))
+    except Exception as e:  # noqa: BLE001
+        out.append(type(e).__name__)
+    return out != [True, True, True, True], f"(a,a) under three tolerance settings + mesh.equals(mesh): {out}"
+
+
+def F23():
+    """C04 / C06 / C15: `fieldcompare file out.pvd ../reference/out.pvd` run from INSIDE the results directory read the
+    result's step file for the reference, too (relative step / piece names were looked up in the working directory
+    first) and passed although the data differ"""
+    import shutil
+    from fieldcompare._cli import main
+    from fieldcompare._cli._logger import CLILogger
+    from fieldcompare.mesh import Mesh, MeshFields, CellTypes
+    from fieldcompare.io import write
+    d = tempfile.mkdtemp(prefix="fcv_w_")
+    old = os.getcwd()
+    try:
+        for sub, val in (("results", 3.0), ("reference", 30.0)):
+            os.makedirs(os.path.join(d, sub))
+            mesh = Mesh(np.array([[0.0, 0.0], [1.0, 0.0], [0.0, 1.0]]), [(CellTypes.triangle, [[0, 1, 2]])])
+            write(MeshFields(mesh, point_data={"u": np.array([1.0, 2.0, val])}), os.path.join(d, sub, "out_0"))
+            with open(os.path.join(d, sub, "out.pvd"), "w") as fh:
+                fh.write('<?xml version="1.0"?>\n<VTKFile type="Collection" version="0.1"><Collection>'
+                         '<DataSet timestep="0" file="out_0.vtu"/></Collection></VTKFile>\n')
+        os.chdir(os.path.join(d, "results"))
+        rc_inside = main(["file", "out.pvd", "../reference/out.pvd"], CLILogger(output_stream=io.StringIO()))
+        os.chdir(d)
+        rc_outside = main(["file", "results/out.pvd", "reference/out.pvd"], CLILogger(output_stream=io.StringIO()))
+        return rc_inside == 0 or rc_outside == 0, f"exit from inside the results directory {rc_inside}, from the parent {rc_outside}"
+    finally:
+        os.chdir(old)
+        shutil.rmtree(d, ignore_errors=True)
+
+
+def F24():
+    """C08 / C06: `merge(a, b)` where b stores its connectivity with a narrow index type (uint8) and a has more points than
+    that type can count: the renumbered corners of b's cells wrapped silently (cells referred to a's points); and a piece
+    with uint64 connectivity next to one with int64 connectivity gave float64 indices, so every later sort raised"""
+    from fieldcompare.mesh import Mesh, MeshFields, CellTypes, merge, sort
+    pts_a = np.array([[float(i), 0.0] for i in range(300)])
+    a = MeshFields(Mesh(pts_a, [(CellTypes.line, np.array([[i, i + 1] for i in range(299)], dtype=np.int64))]))
+    pts_b = np.array([[1000.0, 0.0], [1001.0, 0.0]])
+    b = MeshFields(Mesh(pts_b, [(CellTypes.line, np.array([[0, 1]], dtype=np.uint8))]))
+    m = merge(a, b)
+    conn = np.asarray(m.domain.connectivity(CellTypes.line))
+    last = [tuple(np.asarray(m.domain.points)[int(i)]) for i in conn[-1]]
+    wrapped = last != [(1000.0, 0.0), (1001.0, 0.0)]
+    c = MeshFields(Mesh(pts_b + 5000.0, [(CellTypes.line, np.array([[0, 1]], dtype=np.uint64))]))
+    try:
+        sort(merge(a, c)).domain.points  # noqa: B018
+        raised = None
+    except Exception as e:  # noqa: BLE001
+        raised = type(e).__name__
+    return (wrapped or raised is not None), f"corners of the appended cell: {last}; sort after merging int64 with uint64 connectivity: {raised or 'ok'}"
